@@ -117,6 +117,11 @@ func (e *enumCtx) checkObject(m message.Message, model *refcodec.Packet, start s
 	failf := func(f string, a ...interface{}) {
 		e.fail(typ, shape, fmt.Sprintf(f, a...), desc)
 	}
+	defer func() {
+		if r := recover(); r != nil {
+			failf("the library panics after a setter history: %v", r)
+		}
+	}()
 	want := *model
 	l := m.Len()
 	buf := make([]byte, l+4)
@@ -429,9 +434,21 @@ func setterHistories(e *enumCtx, thorough bool) {
 					message.VerifSetPacketIDCounter(0)
 					m, model := st.mk()
 					calls := make([]string, len(idx))
-					for i, k := range idx {
-						fam.ops[k].f(m, model)
-						calls[i] = fam.ops[k].name
+					panicked := false
+					func() {
+						defer func() {
+							if r := recover(); r != nil {
+								panicked = true
+								e.fail(fam.typ, "history/"+strip(st.name), fmt.Sprintf("the library panics in a setter history: %v", r), map[string]interface{}{"start": st.name, "calls": strings.Join(calls, "; ")})
+							}
+						}()
+						for i, k := range idx {
+							calls[i] = fam.ops[k].name
+							fam.ops[k].f(m, model)
+						}
+					}()
+					if panicked {
+						return
 					}
 					e.c.Rep.Executions++
 					e.c.Rep.Transitions += int64(len(idx))
